@@ -506,7 +506,7 @@ def full_image(rng, rng_np, typ, lines, pixels, pattern="random", classes=None, 
             fd[name] = None
         else:
             w = synth.field("img_fd", name)["width"]
-            fd[name] = str(rng.randrange(0, 10 ** w))
+            fd[name] = rng.choice(["0", "0", "0" * w, str(rng.randrange(0, 10 ** w)), str(rng.randrange(0, 10 ** w)), "9" * w])
     for k in list(fd):
         if ("img_fd", k) in CONSTRAINED:
             del fd[k]
